@@ -193,6 +193,13 @@ theorem c20_x_proxy_passes_names_unchanged :
     makeFetchReqFilter = ["&storeapi.FetchRequest_FieldsFilter{ Fields: ff.Fields, AllowList: ff.AllowList, }"] := by
   decide
 
+/-- every fetch request the proxy sends to a store comes from `makeFetchReq`, the one place that builds a
+`storeapi.FetchRequest` (and puts the fields filter into it, `c20_x_proxy_passes_names_unchanged`) - no path, retry
+or replica fallback included, can reach a store without the filter -/
+theorem c20_x_store_fetch_requests_carry_filter :
+    storeFetchReqBuilders = ["makeFetchReq"] ∧
+    storeFetchCallArgs = ["singleDocsStream: si.makeFetchReq(ids, explain, fields)"] := by decide
+
 /-- `tryParseFieldsFilter`: parse with a nil mapping, first `*parser.PipeFields`, `AllowList = !Except` -/
 theorem c20_x_parse_shape :
     parseFilterSteps = ["q, err := parser.ParseSeqQL(query, nil)", "if err != nil { return FetchFieldsFilter{} }",
